@@ -407,9 +407,9 @@ func (tm *termer) t(v ssa.Value) string {
 				}
 			}
 		}
-		return x.Name()
+		return baseParamName(x)
 	case *ssa.FreeVar:
-		return x.Name()
+		return baseFreeVarName(x)
 	case *ssa.Global:
 		return "&" + x.Pkg.Pkg.Name() + "." + x.Name()
 	case *ssa.Function:
@@ -433,7 +433,7 @@ func (tm *termer) t(v ssa.Value) string {
 			}
 		}
 		if x.Comment != "" {
-			return "&local:" + x.Comment
+			return "&local:" + baseAllocName(x)
 		}
 		return "&local"
 	case *ssa.UnOp:
